@@ -387,10 +387,48 @@ def r04_5(ctx: Ctx) -> None:
            "the record's distance helper passes its length as wrap point exactly on the paths where it is circular",
            form="; ".join(f"{txt(c)[:60]} under {sorted(fact_texts(rcfg, c))}" for c in wraps))
     cfunc = ctx.fn(REC, "Record.connect_locations")
-    src = [txt(v) for v in bound_from(cfunc, "wrap_point")]
-    ok = src == ["len(self) if self.is_circular() and (not disable_wrapping) else None"]
+    ok, src = _wrap_iff(cfunc, "self.is_circular()", "disable_wrapping")
     ctx.ob("R04.5", REC, cfunc, "Record.connect_locations", "wrap iff circular", ok,
-           "the record's connect helper passes its length as wrap point iff it is circular", form=str(src))
+           "the record's connect helper passes its length as wrap point iff it is circular (and wrapping is not disabled)",
+           form=str(src))
+
+
+def _wrap_iff(func: ast.AST, circular: str, disabled: str):
+    """ the wrap point handed on is `len(self)` exactly when the record is circular and wrapping is not disabled, else
+        None; decided on the conditions under which each value is assigned (any spelling: conditional expression,
+        if/else, default then override) """
+    from ..flow import facts_nnf, nnf_equiv, nnf_not, path_facts
+    cfg = CFG(func)
+    spec = ("and", frozenset([("lit", circular, True), ("lit", disabled, False)]))
+    cases = []   # (value text, condition)
+    for node in walk_local(func):
+        if isinstance(node, ast.Assign) and any(isinstance(t, ast.Name) and t.id == "wrap_point" for t in node.targets):
+            cases.append((txt(node.value), facts_nnf(path_facts(cfg, node)), node))
+    if not cases:
+        for call in calls(func):
+            value = kwarg(call, "wrap_point")
+            if isinstance(value, ast.IfExp):
+                from ..flow import nnf
+                base = facts_nnf(path_facts(cfg, call))
+                cases.append((txt(value.body), ("and", frozenset([base, nnf(value.test, True)])), call))
+                cases.append((txt(value.orelse), ("and", frozenset([base, nnf(value.test, False)])), call))
+    forms = [f"{text} under {sorted(str(p) for p in cond[1])}" for text, cond, _ in cases]
+    length = [c for c in cases if c[0] == "len(self)"]
+    none = [c for c in cases if c[0] == "None"]
+    if len(length) != 1 or len(length) + len(none) != len(cases) or not cases:
+        return False, forms
+    try:
+        same, _ = nnf_equiv(length[0][1], spec)
+        if not same:
+            return False, forms
+        for _, cond, node in none:
+            unconditional_default = not cond[1] and cfg.dominates(cfg.n(node), cfg.n(length[0][2]))
+            opposite, _ = nnf_equiv(cond, nnf_not(spec))
+            if not (unconditional_default or opposite):
+                return False, forms
+    except ValueError:
+        return False, forms
+    return True, forms
 
 
 HULL_FUNCS = ["_reduce_parts_to_location", "connect_locations", "_merge_over_origin"]
@@ -464,35 +502,58 @@ def r04_7(ctx: Ctx) -> None:
     pre_ring = parse("a_s < a_e and b_s < b_e and (a_e <= b_s or b_e <= a_s) and 0 <= a_s and 0 <= b_s and a_e <= W and b_e <= W")
     line = "max(a_s - b_e, b_s - a_e)"
     ring = f"min({line}, min(a_s - b_e, b_s - a_e) + W)"
-    # the per-pair gap: assignments to one local inside the pair loop, the later one(s) under the wrap-point fact
-    gaps = [n for n in walk_local(func) if isinstance(n, ast.Assign) and isinstance(n.targets[0], ast.Name)
-            and {x.id for x in ast.walk(n.value) if isinstance(x, ast.Name)} & {pa, pb}]
-    if not gaps:
-        ctx.cannot("R04.7", LOC, func, qual, "gap between two parts", "no assignment computing a gap from the two parts was found")
+    # the per-pair gap: the value handed to the running minimum, as an expression of the two parts on every path through
+    # the body of the pair loop (any spelling: one expression, named intermediates, max() or an explicit comparison)
+    from ..kernel import expr_paths, subst
+    rets = [r for r in walk_local(func) if isinstance(r, ast.Return) and isinstance(r.value, ast.Name)]
+    result = rets[-1].value.id if rets else None
+    pair_loops = [lp for lp in walk_local(func) if isinstance(lp, ast.For)
+                  and {pa, pb} <= {n.id for n in ast.walk(lp) if isinstance(n, ast.Name)}
+                  and not any(isinstance(inner, ast.For) and inner is not lp for inner in walk_local(lp)
+                              if {pa, pb} <= {n.id for n in ast.walk(inner) if isinstance(n, ast.Name)})]
+    body = pair_loops[0].body if pair_loops else []
+    gap_expr, upto = None, None
+    for index, stmt in enumerate(body):
+        for node in ast.walk(stmt):
+            if isinstance(node, ast.Assign) and txt(node.targets[0]) == result:
+                value = node.value
+                if isinstance(value, ast.Call) and call_name(value) == "min":
+                    others = [x for x in value.args if txt(x) != result]
+                    value = others[0] if len(others) == 1 else value
+                gap_expr, upto = value, index
+        if gap_expr is not None:
+            break
+    if gap_expr is None or result is None:
+        ctx.cannot("R04.7", LOC, func, qual, "gap between two parts", "the update of the running minimum inside the pair loop was not found")
         return
-    name = gaps[0].targets[0].id
-    steps = [n for n in walk_local(func) if isinstance(n, ast.Assign) and txt(n.targets[0]) == name]
     try:
-        first = rename(inline_reaching(cfg, steps[0], steps[0].value, keep={pa, pb, wrap}), mapping)
-        ok1, cex1, _ = decide(first, parse(line), pre=pre_line)
-        ok2, cex2 = True, None
-        ringed = [n for n in steps[1:] if any(truth and txt(e) == wrap for e, truth in path_facts(cfg, n))]
-        if steps[0] in [n for n in steps if any(truth and txt(e) == wrap for e, truth in path_facts(cfg, n))]:
-            ringed, ok1, cex1 = [steps[0]], True, None
-        for n in ringed:
-            class Prev(ast.NodeTransformer):
-                def visit_Name(self, node):  # noqa: N802
-                    return clone(steps[0].value) if node.id == name and n is not steps[0] else node
-            value = rename(inline_reaching(cfg, n, Prev().visit(clone(n.value)), keep={pa, pb, wrap, name}), mapping)
-            ok2, cex2, _ = decide(value, parse(ring), pre=pre_ring)
-        covered = bool(ringed) and len(ringed) + (0 if steps[0] in ringed else 1) == len(steps)
-        ctx.ob("R04.7", LOC, steps[0], qual, "gap between two parts", ok1 and ok2 and covered,
+        problems, forms, n_paths = [], [], 0
+        for conds, env, kind in expr_paths(body[:upto]):
+            if kind != "fall":
+                continue
+            n_paths += 1
+            value = rename(subst(gap_expr, env), mapping)
+            ringed = any(truth and txt(e) == wrap for e, truth in conds)
+            extra = [e if truth else ast.UnaryOp(op=ast.Not(), operand=e) for e, truth in conds if txt(e) != wrap]
+            pre = pre_ring if ringed else pre_line
+            if extra:
+                pre = ast.BoolOp(op=ast.And(), values=[pre] + [rename(x, mapping) for x in extra])
+            forms.append(txt(value)[:70])
+            try:
+                same, cex, _ = decide(value, parse(ring if ringed else line), pre=pre)
+            except OutsideFragment as err:
+                if "unsatisfiable" in str(err):
+                    continue
+                raise
+            if not same:
+                problems.append(cex)
+        ok = n_paths > 0 and not problems
+        ctx.ob("R04.7", LOC, body[upto], qual, "gap between two parts", ok,
                "two disjoint parts are max(a.start - b.end, b.start - a.end) apart on a line and, with a wrap point, the smaller of "
-               "that and the way over the origin",
-               detail=f"differs at {cex1 or cex2}" if (cex1 or cex2) else ("" if covered else "an assignment of the gap is neither the line nor the ring form"),
-               form="; ".join(txt(n.value)[:80] for n in steps))
+               "that and the way over the origin (decided on every path through the pair loop's body)",
+               detail=f"differs at {problems[0]}" if problems else "", form="; ".join(forms)[:200])
     except OutsideFragment as err:
-        ctx.cannot("R04.7", LOC, steps[0], qual, "gap between two parts", str(err))
+        ctx.cannot("R04.7", LOC, body[upto], qual, "gap between two parts", str(err))
         return
     # the result is the minimum over all pairs: no pair is skipped
     loops = [n for n in walk_local(func) if isinstance(n, ast.For)]
